@@ -361,7 +361,62 @@ func TestBitFlips(t *testing.T) {
 					prefill = []uint8{0x40, 0x08, 0x11, 0xFF, 0x80, 0x01}[(bit/3)%6]
 				}
 				cs := Case{Kind: k.Name, Payload: p, Source: fmt.Sprintf("corpus:%s+flip-bit-%d", f.Name, bit), Plan: stdgen.OneShot,
-					Variant: Variant{Name: "leave-uninit-over-garbage", Build: "san", Flags: stdh.FlagLeaveInternalBuffersUninit, Prefill: prefill, Seed: uint64(bit)*2654435761 + 1}}
+					Variant: Variant{Name: "leave-uninit-over-garbage", Build: "san", Flags: stdh.FlagLeaveInternalBuffersUninit, Prefill: prefill, Seed: uint64(bit)*2654435761 + 1,
+						WorkFill: stdh.PrefillRandom, DstFill: 0xFF}}
+				runCase(t, env, cs)
+			}
+		}
+	}
+}
+
+// TestTruncations cuts every corpus file (up to the tier's size limit) at 32
+// evenly spread positions (every position for files of up to 64 bytes) and
+// compares the zero-memory, zero-buffer baseline with a decode whose object
+// memory, work buffer (of exactly the requested length) and destination slack
+// are garbage: whatever a decoder reports about the part of the input it never
+// saw must not come from memory it was handed.
+func TestTruncations(t *testing.T) {
+	env, err := stdrun.Get()
+	if err != nil {
+		t.Fatal(err)
+	}
+	defer env.Close()
+	c := stdgen.LoadCorpus(ev.RepoRoot())
+	shard, nshards := ev.EnvInt("VERIF_SHARD", 0), ev.EnvInt("VERIF_NSHARDS", 1)
+	seed := uint64(ev.Seed())
+	idx := 0
+	for _, k := range env.Kinds {
+		if k.Iface >= stdh.H32 {
+			continue
+		}
+		for _, f := range c.Small(k.Pkg(), maxFile()) {
+			if shard == 0 {
+				ev.Class("truncation-file")
+			}
+			n := len(f.Data)
+			var cuts []int
+			if n <= 64 {
+				for i := 0; i < n; i++ {
+					cuts = append(cuts, i)
+				}
+			} else {
+				for i := 0; i < 32; i++ {
+					j := (seed*2654435761 + uint64(i)*40503 + uint64(n)) % uint64(n/32)
+					cuts = append(cuts, i*(n/32)+int(j))
+				}
+			}
+			for _, cut := range cuts {
+				idx++
+				if idx%nshards != shard {
+					continue
+				}
+				prefill := uint8(stdh.PrefillRandom)
+				if idx%3 == 1 {
+					prefill = []uint8{0x40, 0x08, 0x11, 0xFF, 0x80, 0x01}[(idx/3)%6]
+				}
+				cs := Case{Kind: k.Name, Payload: f.Data[:cut], Source: fmt.Sprintf("corpus:%s+truncated-at-%d", f.Name, cut), Plan: stdgen.OneShot,
+					Variant: Variant{Name: "leave-uninit-over-garbage", Build: "san", Flags: stdh.FlagLeaveInternalBuffersUninit, Prefill: prefill, Seed: uint64(cut)*2654435761 + 7,
+						WorkFill: stdh.PrefillRandom, DstFill: 0xFF}}
 				runCase(t, env, cs)
 			}
 		}
